@@ -239,15 +239,19 @@ def classify(engine, tree, rec, ref, got, exc):
                 # value those sub-comparisons are given
                 from flow.record.selector import CompiledSelector
 
-                ok = 0
+                judged = agree = 0
                 for b in (False, True):
                     tb = _ReverseMembershipTo(_is_text_valued, b)
                     tree_b = ast.fix_missing_locations(tb.visit(copy.deepcopy(alt_tree)))
                     if not tb.hits:
                         break
-                    if run_engine(CompiledSelector, ast.unparse(tree_b), rec)[0] == ("V", ref_truth(tree_b, rec)):
-                        ok += 1
-                if ok == 2:
+                    try:
+                        want_b = ref_truth(tree_b, rec)
+                    except (Undefined, Unsupported):
+                        continue   # with this value the rest of the expression is undefined on the record: no judgement
+                    judged += 1
+                    agree += run_engine(CompiledSelector, ast.unparse(tree_b), rec)[0] == ("V", want_b)
+                if judged and agree == judged:
                     return "compiled-reverse-membership-typematcher"
         except (Undefined, Unsupported):
             pass
